@@ -86,7 +86,7 @@ def elem_syms(prefix, size, n):
 
 
 def kernel_closed_form(m, opcode_entry, n, offset_term=None, acc_init=None, src_terms=None, staged=None,
-                       nan_mode='canonical', simplify=True, prefix='', window_elems=None, ex=None, max_steps=200000):
+                       nan_mode='canonical', simplify=True, prefix='', window_elems=None, ex=None, max_steps=200000, src_elems=None):
     """Run emulate_<op>(opx, offset, n) on fresh symbolic operands and return the closed form.
 
     src_terms: optional list (per source operand) overriding the fresh inputs: a list of n element terms
@@ -126,8 +126,10 @@ def kernel_closed_form(m, opcode_entry, n, offset_term=None, acc_init=None, src_
             els = given if given is not None else elem_syms('%ss%d' % (prefix, k), size, n)
             if len(els) != n:
                 raise ValueError('src_terms[%d] must have n=%d elements' % (k, n))
-            p = ex.alloc('%ssrc%d' % (prefix, k), size * n, init='zero')
-            for i, e in enumerate(els):
+            # src_elems[k]: number of elements the source object really has (default n); an access beyond it faults
+            cnt_k = (src_elems or {}).get(k, n)
+            p = ex.alloc('%ssrc%d' % (prefix, k), size * cnt_k, init='zero')
+            for i, e in enumerate(els[:cnt_k]):
                 ex.write(p, i * size, e, size)
             srcs.append(list(els))
         ex.write(opx, L['src_ptrs'] + 8 * k, p, 8)
